@@ -293,7 +293,13 @@ def coq_props(prop_id, model_targets, clean=False):
 
 
 def coqchk(prop_id):
-    rc, out = _run(["coqchk", "-silent", "-o", "-Q", ".", "Conductor", "Conductor.Props.%s" % prop_id], cwd=COQ, timeout=1800)
+    """independent re-check of the compiled theorem file and everything it depends on; under the build lock and right
+    after bringing the .vo files up to date, so that another check building for a different tree cannot swap a
+    dependency underneath (coqchk would report inconsistent assumptions)"""
+    with _Lock():
+        regenerate()
+        _run(["make", "-f", "Makefile.coq", "-j%d" % NCPU, "Props/%s.vo" % prop_id], cwd=COQ, timeout=1500)
+        rc, out = _run(["coqchk", "-silent", "-o", "-Q", ".", "Conductor", "Conductor.Props.%s" % prop_id], cwd=COQ, timeout=1800)
     return rc, out
 
 
